@@ -669,6 +669,10 @@ package tree
 // what is deleted for a case that lost the choice lies below this node: one of its children, or a path one element longer
 //@   loop 1 invariant losing_case_is_deleted_below_this_node [C01 C09]: called(NewDeleteEntryImpl) ==> callarg(NewDeleteEntryImpl, 0, 0) != callres(SdcpbPath, 0, 0) &&
 //@            callarg(NewDeleteEntryImpl, 0, 0) != nil && len(callarg(NewDeleteEntryImpl, 0, 1)) == len(callres(Path, 0)) + 1
+// when the winning case changes, every member of the former case goes: the members walked are all the elements of the
+// case that ruled before, whatever their flags say
+//@   loop 1 invariant every_member_of_the_former_case_is_walked [C08 C01]: $map == callarg(getOldBestCaseName, 0, 0).cases[callres(getOldBestCaseName, 0)].elements &&
+//@            callres(getOldBestCaseName, 0) != "" && callres(getBestCaseName, 0) != "" && callres(getOldBestCaseName, 0) != callres(getBestCaseName, 0)
 //@   loop 2 invariant collected_so_far_is_kept: len(deletes) >= len(acc) && forall(i, 0, len(acc), deletes[i] == old(acc[i]))
 //@   loop 2 invariant all_children_are_searched [C01 C08]: called(GetAll) && $map == callres(GetAll) && allstr(k, present($map, k) ==> $map[k] != nil)
 
